@@ -254,7 +254,7 @@ LeakT(n, D) ==
        IN IF Const(own) THEN n1
           ELSE [n1 EXCEPT !.kids = [ i \in DOMAIN n.kids |-> LeakT(n.kids[i], D) ]]
 RECURSIVE StripCls(_)
-StripCls(n) == IF IsAtom(n) THEN n ELSE [n EXCEPT !.cls = "", !.kids = [ i \in DOMAIN n.kids |-> StripCls(n.kids[i]) ]]
+StripCls(n) == IF IsAtom(n) THEN [n EXCEPT !.o = 0] ELSE [n EXCEPT !.cls = "", !.o = 0, !.kids = [ i \in DOMAIN n.kids |-> StripCls(n.kids[i]) ]]
 \* another live object that shares sub-objects with the called one sees the overwrite on the shared sub-objects only: it equals
 \* its former self except that bounds of sub-propositions named in the dictionary may have become the named value
 RECURSIVE LeakSome(_, _, _)
@@ -348,6 +348,7 @@ Verdict(e) ==
      [] e.op = "b64"       -> EvB64(e)
      [] e.op = "b64poly"   -> EvB64Poly(e)
      [] e.op = "history"   -> EvHistory(e)
+     [] e.op = "results_stable" -> Fail("result_stable", e.later = e.first)
      [] e.op = "l_evaluate" -> EvLEvaluate(e)
      [] e.op = "l_negate"  -> EvLNegate(e)
      [] e.op = "l_assume"  -> EvLAssume(e)
